@@ -2,6 +2,14 @@
 Written from the algorithm's definition (not from the repo's table). Works on ints and SymInts."""
 
 
+def _poly_if(lsb):
+    """0xA001 when the shifted-out bit is 1, else 0 (no forking on symbolic values)."""
+    if isinstance(lsb, int):
+        return 0xA001 if lsb else 0
+    from sx.values import sym_ite
+    return sym_ite(lsb == 1, 0xA001, 0)
+
+
 def crc16_modbus(data):
     crc = 0xFFFF
     for b in data:
@@ -9,8 +17,7 @@ def crc16_modbus(data):
         for _ in range(8):
             lsb = crc & 1
             crc = crc >> 1
-            # branch-free: xor the polynomial when the shifted-out bit was 1 (lsb is 0/1)
-            crc = crc ^ (lsb * 0xA001)
+            crc = crc ^ _poly_if(lsb)
     return crc
 
 
